@@ -10,6 +10,7 @@ import (
 	"os"
 	"os/exec"
 	"runtime"
+	"runtime/debug"
 	"runtime/metrics"
 	"strconv"
 	"strings"
@@ -102,6 +103,7 @@ type child struct {
 	batch   [][]byte // payloads of the current batch (for the individual re-run)
 	batchAt uint64
 	seenKey map[string]bool
+	lastHB  int
 }
 
 func (c *child) allocNow() uint64 {
@@ -244,14 +246,15 @@ func (c *child) endBatch() {
 }
 
 func (c *child) heartbeat() {
-	if !c.trace && c.caseNo%50000 == 0 {
+	if !c.trace && c.caseNo-c.lastHB >= 50000 {
+		c.lastHB = c.caseNo
 		fmt.Fprintln(c.out, "HB")
 		c.out.Flush()
 	}
 }
 
 func (c *child) doCell(idx int, cell pktgen.Cell, firstOfRegistry bool) {
-	c.cell, c.cellIdx, c.caseNo = cell, idx, 0
+	c.cell, c.cellIdx, c.caseNo, c.lastHB = cell, idx, 0, 0
 	c.res = &cellResult{Cell: idx, Classes: map[string]int64{}}
 	c.seenKey = map[string]bool{}
 	fmt.Fprintf(c.out, "CELL %d\n", idx)
@@ -317,6 +320,25 @@ func (c *child) doCell(idx int, cell pktgen.Cell, firstOfRegistry bool) {
 			c.res.Classes["mutation:all-256-values@first-12-offsets"] += 255
 		}
 	}
+	// structural hostile inputs: every small index graph (byte mutations never build index cycles)
+	if pktgen.IsIndexGraphPacket(cell) {
+		maxNodes := 2
+		if c.r.Thorough() {
+			maxNodes = 3
+		}
+		k := 0
+		n := pktgen.GraphPayloads(cell, maxNodes, func(data []byte) bool {
+			c.run(mk(data))
+			k++
+			if k%256 == 0 {
+				c.endBatch()
+				c.heartbeat()
+			}
+			return true
+		})
+		c.endBatch()
+		c.res.Classes[fmt.Sprintf("structural:index-graph<=%d-nodes", maxNodes)] += int64(n)
+	}
 	// all short payloads for this packet id
 	c.run(mk())
 	for a := 0; a < 256; a++ {
@@ -367,6 +389,10 @@ func atoiEnv(k string) int { n, _ := strconv.Atoi(os.Getenv(k)); return n }
 
 func runChild(r *vrt.R) {
 	pktgen.Thorough = r.Thorough()
+	// unbounded recursion must end as a prompt, deterministic "stack overflow" fatal error instead of
+	// tens of seconds of growing the stack to the default 1 GB (payloads here are < 2 KiB; 32 MiB is far more
+	// than any bounded recursion over them needs)
+	debug.SetMaxStack(32 << 20)
 	_ = syscall.Setrlimit(syscall.RLIMIT_AS, &syscall.Rlimit{Cur: asLimit, Max: asLimit})
 	c := &child{r: r, out: bufio.NewWriterSize(os.NewFile(3, "progress"), 1<<16), trace: os.Getenv("C05_TRACE") != "",
 		from: atoiEnv("C05_FROM"), only: atoiEnv("C05_ONLY")}
@@ -469,7 +495,15 @@ func spawn(env []string, stall time.Duration, hard time.Time) *childRun {
 		}
 		close(lines)
 	}()
-	timer := time.NewTimer(stall)
+	// Stall detection is by CPU time the child burns without reporting progress (load-independent:
+	// a child that is merely starved by other processes is not "hanging"), with a wall-clock backstop
+	// for a child that blocks without using CPU.
+	pid := cmd.Process.Pid
+	tick := time.NewTicker(500 * time.Millisecond)
+	defer tick.Stop()
+	progressed := true
+	cpuMark := procCPU(pid)
+	lastProgress := time.Now()
 loop:
 	for {
 		select {
@@ -477,13 +511,7 @@ loop:
 			if !ok {
 				break loop
 			}
-			if !timer.Stop() {
-				select {
-				case <-timer.C:
-				default:
-				}
-			}
-			timer.Reset(stall)
+			progressed = true
 			switch {
 			case strings.HasPrefix(ln, "CELL "):
 				cr.lastCell, _ = strconv.Atoi(ln[5:])
@@ -509,15 +537,22 @@ loop:
 			case ln == "END":
 				cr.ended = true
 			}
-		case <-timer.C:
-			cr.hung = true
-			_ = cmd.Process.Kill()
-			break loop
-		}
-		if time.Now().After(hard) {
-			cr.deadline = true
-			_ = cmd.Process.Kill()
-			break loop
+		case <-tick.C:
+			cpu := procCPU(pid)
+			if progressed {
+				progressed = false
+				cpuMark = cpu
+				lastProgress = time.Now()
+			} else if cpu-cpuMark >= stall || time.Since(lastProgress) > 12*stall {
+				cr.hung = true
+				_ = cmd.Process.Kill()
+				break loop
+			}
+			if time.Now().After(hard) {
+				cr.deadline = true
+				_ = cmd.Process.Kill()
+				break loop
+			}
 		}
 	}
 	_ = cmd.Wait()
@@ -528,6 +563,26 @@ loop:
 	}
 	cr.stderr = s
 	return cr
+}
+
+// procCPU returns the CPU time (user+system) a process has used so far.
+func procCPU(pid int) time.Duration {
+	b, err := os.ReadFile(fmt.Sprintf("/proc/%d/stat", pid))
+	if err != nil {
+		return 0
+	}
+	// fields after the ")" that closes the command name: state is field 3, utime 14, stime 15
+	i := bytes.LastIndexByte(b, ')')
+	if i < 0 {
+		return 0
+	}
+	f := strings.Fields(string(b[i+1:]))
+	if len(f) < 13 {
+		return 0
+	}
+	ut, _ := strconv.ParseInt(f[11], 10, 64)
+	st, _ := strconv.ParseInt(f[12], 10, 64)
+	return time.Duration(ut+st) * (time.Second / 100) // USER_HZ is 100 on Linux
 }
 
 func crashKind(stderr string) string {
@@ -630,7 +685,7 @@ func (p *parent) investigate(idx int) {
 			// confirm: the same case alone must hang again
 			again := spawn([]string{"C05_REPLAY=" + mustJSON(rpd)}, 10*time.Second, p.hard)
 			if again.hung {
-				r.Violation(tn+"/hang", fmt.Sprintf("%s: decoding this payload does not finish within 10 s of CPU (reproduced twice; every other case takes microseconds)\n  payload (id+data): %s", cell, payload), rpd)
+				r.Violation(tn+"/hang", fmt.Sprintf("%s: decoding this payload burns more than 10 s of CPU without finishing (reproduced twice; every other case takes microseconds)\n  payload (id+data): %s", cell, payload), rpd)
 				r.NotExhaustive(fmt.Sprintf("cells of %s after the hanging payload are not explored", tn))
 				return
 			}
@@ -666,7 +721,7 @@ func runParent(r *vrt.R) {
 				}
 			}
 		case cr.hung:
-			r.Violation(tn+"/hang", "replay: decoding does not finish within 10 s", x)
+			r.Violation(tn+"/hang", "replay: decoding burns more than 10 s of CPU without finishing", x)
 		case cr.deadline:
 			r.NotExhaustive("soft deadline reached during replay")
 		default:
